@@ -74,7 +74,16 @@ func (p *TriggerPool) running() bool {
 }
 
 func (p *TriggerPool) stop() {
-	jobsDiscarded := p.halt()
+	p.recordDropped(p.halt())
+}
+
+// recordDropped reports jobs that were still pending when they were superseded by the next
+// tick or when triggering stopped. Jobs that could not start only because the max iterations
+// limit had been reached by then are not dropped iterations: they are discarded silently.
+func (p *TriggerPool) recordDropped(jobsDiscarded int64, limitReached bool) {
+	if limitReached {
+		return
+	}
 
 	for range jobsDiscarded {
 		p.manager.activeScenario.RecordDroppedIteration()
@@ -88,16 +97,17 @@ func (p *TriggerPool) maxIterationsReached() {
 }
 
 // halt stops the pool: from now on no jobs are accepted. It returns the number of jobs
-// that were still pending.
-func (p *TriggerPool) halt() int64 {
+// that were still pending, and whether the max iterations limit had been reached by then.
+func (p *TriggerPool) halt() (int64, bool) {
 	p.jobsAvailableCond.L.Lock()
 	defer p.jobsAvailableCond.L.Unlock()
 
 	p.stopWorkers.Store(true)
 	jobsDiscarded := p.jobsToExecute.set(0)
+	limitReached := p.manager.IterationsExhausted()
 	p.jobsAvailableCond.Broadcast()
 
-	return jobsDiscarded
+	return jobsDiscarded, limitReached
 }
 
 func (p *TriggerPool) sendJobsForExecution(numJobs int) {
@@ -110,13 +120,12 @@ func (p *TriggerPool) sendJobsForExecution(numJobs int) {
 	}
 
 	jobsDiscarded := p.jobsToExecute.set(numJobs)
+	limitReached := p.manager.IterationsExhausted()
 	p.jobsAvailableCond.Broadcast()
 
 	p.jobsAvailableCond.L.Unlock()
 
-	for range jobsDiscarded {
-		p.manager.activeScenario.RecordDroppedIteration()
-	}
+	p.recordDropped(jobsDiscarded, limitReached)
 }
 
 func (p *TriggerPool) waitForNewJobs() {
